@@ -17,7 +17,22 @@ namespace WuffsVerif.CallSeq
 inductive Codec where
   | gif
   | png
+  /-- the single-frame decoders, whose `call_sequence` code is textually the same (op `cssrc` checks
+  that on every run): bmp, etc2, handsum, jpeg, netpbm, qoi, targa, thumbhash, vp8, wbmp, webp.
+  (bmp's `do_decode_image_config` additionally answers `"#bad call sequence"` after it reported an
+  `"@I/O redirect"`; that state is outside this automaton.) -/
+  | still
+  /-- std/nie (NIE stills and NIA animations; no metadata) -/
+  | nie
   deriving DecidableEq, Repr, Inhabited
+
+/-- Does the decoder have the metadata side-track (the `0x10` states) at all? The others' `tell_me_more`
+is the one-liner `return base."#no more information"`. -/
+def Codec.hasMetadata : Codec → Bool
+  | .gif => true
+  | .png => true
+  | .still => false
+  | .nie => false
 
 /-- DIC, DFC, DF, TMM, RF of the document. -/
 inductive Meth where
@@ -69,6 +84,8 @@ def dicInner (c : Codec) (cs : Nat) : List Res :=
   else match c with
     | .gif => Res.ofStops 0x00 ++ [.fin (.mdata, 0x10), .cont 0x20, .cont 0x60]
     | .png => Res.ofStops 0x00 ++ [.fin (.mdata, 0x10), .cont 0x20]
+    | .still => Res.ofStops 0x00 ++ [.cont 0x20]
+    | .nie => Res.ofStops 0x00 ++ [.cont 0x20]
 
 /-- The tail of `do_decode_frame_config` once the entry switch is through, entered with `cs`.
 gif: `if (num_decoded_frame_configs_value > 0) or (cs == 0x28) { decode_up_to_id_part1 (a trailer sets
@@ -80,10 +97,15 @@ def dfcTail (c : Codec) (cs : Nat) : List Res :=
   match c with
   | .gif => Res.ofStops cs ++ [.fin (.eod, 0x60), .cont 0x40]
   | .png => [.fin (.mdata, 0x30)] ++ Res.ofStops cs ++ [.fin (.eod, 0x60), .cont 0x40]
+  -- still: straight to `cs = 0x40`. nie: `decode_animation_info` (may stop; the animation footer sets
+  -- 0x60 and returns `"@end of data"`), then `cs = 0x40`
+  | .still => [.cont 0x40]
+  | .nie => Res.ofStops cs ++ [.fin (.eod, 0x60), .cont 0x40]
 
 /-- `do_decode_frame_config`. -/
 def dfcInner (c : Codec) (cs : Nat) : List Res :=
-  if cs &&& 0x10 ≠ 0 then [.fin (.bcs, cs)]
+  -- gif, png only: `if (cs & 0x10) <> 0 { return "#bad call sequence" }`
+  if c.hasMetadata ∧ cs &&& 0x10 ≠ 0 then [.fin (.bcs, cs)]
   else if cs = 0x20 then dfcTail c 0x20
   else if cs < 0x20 then
     (dicInner c cs).flatMap fun r => match r with
@@ -93,15 +115,27 @@ def dfcInner (c : Codec) (cs : Nat) : List Res :=
     -- `#bad restart` when the reader is not at `frame_config_io_position`
     [.fin (.err, 0x28)] ++ dfcTail c 0x28
   else if cs = 0x40 then
-    -- `skip_frame` (ends with `cs = 0x20`), then the tail
-    Res.ofStops 0x40 ++ dfcTail c 0x20
+    match c with
+    -- still: `cs = 0x60; return "@end of data"`
+    | .still => [.fin (.eod, 0x60)]
+    -- nie: `skip_frame` ends with `cs = 0x20` (animated) or `cs = 0x60; return "@end of data"`
+    | .nie => Res.ofStops 0x40 ++ [.fin (.eod, 0x60)] ++ dfcTail c 0x20
+    -- gif, png: `skip_frame` (ends with `cs = 0x20`), then the tail
+    | _ => Res.ofStops 0x40 ++ dfcTail c 0x20
   else [.fin (.eod, cs)]
+
+/-- The pixels of `do_decode_frame` (may stop), then the final assignment. -/
+def dfBody : Codec → List Res
+  -- still: `cs = 0x60`. nie: `cs = 0x20` (animated) or `cs = 0x60`. gif, png: `cs = 0x20`
+  | .still => Res.ofStops 0x40 ++ [.cont 0x60]
+  | .nie => Res.ofStops 0x40 ++ [.cont 0x20, .cont 0x60]
+  | _ => Res.ofStops 0x40 ++ [.cont 0x20]
 
 /-- `do_decode_frame`. gif: `cs == 0x40` go on, `cs < 0x40` first `do_decode_frame_config`, else
 `"@end of data"`. png: 0x10 bit ⇒ bad call sequence, `cs >= 0x60` ⇒ `"@end of data"`, `cs ≠ 0x40` first
 `do_decode_frame_config`. Then the pixels (may stop), then `cs = 0x20`. -/
 def dfInner (c : Codec) (cs : Nat) : List Res :=
-  let body : List Res := Res.ofStops 0x40 ++ [.cont 0x20]
+  let body : List Res := dfBody c
   let viaDfc : List Res := (dfcInner c cs).flatMap fun r => match r with
     | .fin o => [.fin o]
     | .cont _ => body
@@ -112,11 +146,16 @@ def dfInner (c : Codec) (cs : Nat) : List Res :=
     if cs &&& 0x10 ≠ 0 then [.fin (.bcs, cs)]
     else if cs ≥ 0x60 then [.fin (.eod, cs)]
     else if cs ≠ 0x40 then viaDfc else body
+  | .still =>
+    if cs = 0x40 then body else if cs < 0x40 then viaDfc else [.fin (.eod, cs)]
+  | .nie =>
+    if cs = 0x40 then body else if cs < 0x40 then viaDfc else [.fin (.eod, cs)]
 
 /-- `do_tell_me_more`: `(cs & 0x10) == 0` ⇒ bad call sequence; may stop (`$even more information`,
 `$mispositioned read`, `#no more information`, …); at the end `cs &= 0xEF`. -/
-def tmmInner (_c : Codec) (cs : Nat) : List Res :=
-  if cs &&& 0x10 = 0 then [.fin (.bcs, cs)]
+def tmmInner (c : Codec) (cs : Nat) : List Res :=
+  if !c.hasMetadata then [.fin (.err, cs)]   -- `return base."#no more information"`
+  else if cs &&& 0x10 = 0 then [.fin (.bcs, cs)]
   else Res.ofStops cs ++ [.cont (cs &&& 0xEF)]
 
 /-- `restart_frame` (not a coroutine): `cs < 0x20` ⇒ bad call sequence; `#bad argument`; `cs = 0x28`. -/
